@@ -20,7 +20,8 @@ from elementpath.protocols import LxmlElementProtocol
 
 from xmlschema.aliases import ElementType, ElementTreeType, \
     EtreeType, IOType, IterParseType, ParentMapType
-from xmlschema.exceptions import XMLResourceError, XMLResourceParseError, XMLResourceExceeded
+from xmlschema.exceptions import XMLSchemaException, XMLResourceError, \
+    XMLResourceParseError, XMLResourceExceeded
 from xmlschema.utils.misc import iter_class_slots
 from xmlschema.utils.qnames import get_namespace
 from xmlschema.arguments import BooleanOption, LazyOption, IterParseOption
@@ -277,7 +278,11 @@ class XMLResourceLoader:
                 else:
                     yield event, node  # comment or pi node
 
-        except SyntaxError as err:
+        except (SyntaxError, LookupError, ValueError) as err:
+            if isinstance(err, XMLSchemaException):
+                raise
+            # SyntaxError is for not well-formed data, LookupError and ValueError
+            # are raised for encoding declarations that the parser can't honour.
             raise XMLResourceParseError("invalid XML syntax: {}".format(err)) from err
         finally:
             self._lazy_lock.release()
@@ -325,7 +330,11 @@ class XMLResourceLoader:
                     end_ns = True
                 elif event == 'end':
                     remaining_levels += 1
-        except SyntaxError as err:
+        except (SyntaxError, LookupError, ValueError) as err:
+            if isinstance(err, XMLSchemaException):
+                raise
+            # SyntaxError is for not well-formed data, LookupError and ValueError
+            # are raised for encoding declarations that the parser can't honour.
             raise XMLResourceParseError("invalid XML syntax: {}".format(err)) from err
 
     def _clear(self, elem: ElementType,
